@@ -23,6 +23,7 @@ Print Assumptions C27_check_reports_first_undeclared.
    a well-formed call is rejected with "unknown parameter" exactly when it passes a keyword that is
    neither an explicit argument of the entry point nor declared *)
 Theorem C27_validated : forall w c declared opn g o kw,
+  o_entry o <> ERepo ->
   bind_kwargs (o_entry o) (o_kw o) = Some kw ->
   ((exists k, snd (run_op w c declared opn g o) = ORejected k) <->
    (exists k, In k (keys (o_kw o)) /\ ~ In k (sig_of (o_entry o)) /\ ~ In k declared)).
@@ -46,6 +47,7 @@ Print Assumptions C27_declared_exactly.
 (* hence a call passing only declared parameters is never a TypeError, never rejected, and all its
    keywords reach **kwargs unchanged, for each of the three call shapes *)
 Theorem C27_declared_accepted : forall names e call_kw,
+  e <> ERepo ->
   (forall k, In k (keys call_kw) -> In k (declare builtin_store names)) ->
   bind_kwargs e call_kw = Some call_kw /\ check_params (declare builtin_store names) call_kw = None.
 Proof. exact declared_accepted. Qed.
@@ -89,6 +91,32 @@ Theorem C27_history : forall w c declared ops,
 Proof. exact history_carries. Qed.
 Print Assumptions C27_history.
 
+(* After any history the model returned by a load is either an object that existed before (a cached
+   model of the global repository: nothing is created, nothing changes) or the first object this load
+   creates; repository entries always denote existing objects (history invariant gok). *)
+Theorem C27_result_index : forall w c declared ops o g' res n0 repo,
+  run_op w c declared (length ops) (end_state w c declared 0 g_init ops) o = (g', OLoaded res n0 repo) ->
+  (res < n0 /\ g' = end_state w c declared 0 g_init ops /\ c_grepo c = true) \/
+  (res = n0 /\ n0 < length (g_heap g')).
+Proof. exact history_result_index. Qed.
+Print Assumptions C27_result_index.
+
+(* GlobalRepo.load_models_in_model_repo (documented: no validation): never rejects; every model it
+   creates — whatever registered language loads it — carries exactly the bound keyword arguments; the
+   metamodel's own repository is not touched.  (C27_history covers these operations too.) *)
+Theorem C27_repo_never_rejects : forall w c declared opn g o k,
+  o_entry o = ERepo -> snd (run_op w c declared opn g o) <> ORejected k.
+Proof. exact run_op_repo_never_rejects. Qed.
+Print Assumptions C27_repo_never_rejects.
+
+Theorem C27_repo_everywhere : forall w c declared opn g o g' n0 repo kw,
+  run_op w c declared opn g o = (g', ORepo n0 repo) ->
+  bind_kwargs (o_entry o) (o_kw o) = Some kw ->
+  o_entry o = ERepo /\ n0 = length (g_heap g) /\ g_repo g' = g_repo g /\
+  exists added, g_heap g' = g_heap g ++ added /\ Forall (good kw opn) added.
+Proof. exact run_op_repo. Qed.
+Print Assumptions C27_repo_everywhere.
+
 (* the model's out-of-fuel value is an artefact that no operation ever produces: the fuel given by
    run_op (number of files + 2) always suffices, whatever the import graph *)
 Theorem C27_fuel_sufficient : forall w c declared opn g o,
@@ -118,3 +146,26 @@ Example C27_nonvacuous_rejected :
   = OTypeError.
 Proof. vm_compute. split; reflexivity. Qed.
 Print Assumptions C27_nonvacuous_rejected.
+
+(* several registered languages: the parameters reach the models loaded by another metamodel (b.n1, and
+   c.u which has no language and is loaded by the importing metamodel 1) and the files of the outer
+   language below them (d.m), although only the entry metamodel declares p *)
+Example C27_nonvacuous_languages :
+  let r := run_op ex_world_langs {| c_prov := PImportURI; c_grepo := false |} (declare builtin_store [k_p]) 0 g_init
+                  (ex_op [(k_p, 7%N)]) in
+  snd r = OLoaded 0 0 (Some [(0, 0); (1, 1); (2, 2); (3, 3)]) /\
+  map m_mm (g_heap (fst r)) = [0; 1; 1; 0] /\
+  map m_params (g_heap (fst r)) = (let kw := Some [(k_p, 7%N)] in [kw; kw; kw; kw]).
+Proof. vm_compute. repeat split; reflexivity. Qed.
+Print Assumptions C27_nonvacuous_languages.
+
+(* load_models_in_model_repo with an undeclared keyword: not rejected, four models created (the file
+   without language is loaded by the metamodel of the model that imports it) *)
+Example C27_nonvacuous_repo :
+  let r := run_op ex_world_langs {| c_prov := PGlobalRepo; c_grepo := false |} builtin_store 0 g_init
+                  (ex_repo_op [([113]%N, 1%N)]) in
+  snd r = ORepo 0 [(1, 0); (2, 1); (3, 2); (0, 3)] /\
+  map m_mm (g_heap (fst r)) = [1; 1; 0; 0] /\
+  map m_params (g_heap (fst r)) = (let kw := Some [([113]%N, 1%N)] in [kw; kw; kw; kw]).
+Proof. vm_compute. repeat split; reflexivity. Qed.
+Print Assumptions C27_nonvacuous_repo.
